@@ -1221,7 +1221,7 @@ func init() {
 			{Name: "exhaustive-small", Prologue: true, Fn: c12Exhaustive},
 		},
 		Components: map[string][]string{
-			"real": {"pkg/blobstore/sharding: shardingBlobAccess (Get, GetFromComposite, Put, FindMissing fan-out over errgroup, shard-key error handler), rendezvousShardSelector (NewRendezvousShardSelector, GetShard, score, Log2Fixed)", "pkg/blobstore/buffer (error handler wrapping, CAS chunk-reader buffers)", "pkg/digest (digests, sets)", "pkg/util (status wrapping)"},
+			"real": {"pkg/blobstore/configuration new_blob_access.go / new_blob_replicator.go / creators (W-config runs: the composite is assembled by the unmodified NewBlobAccessFromConfiguration over model leaves)", "pkg/blobstore/sharding: shardingBlobAccess (Get, GetFromComposite, Put, FindMissing fan-out over errgroup, shard-key error handler), rendezvousShardSelector (NewRendezvousShardSelector, GetShard, score, Log2Fixed)", "pkg/blobstore/buffer (error handler wrapping, CAS chunk-reader buffers)", "pkg/digest (digests, sets)", "pkg/util (status wrapping)"},
 			"stub": {"shards (map-backed BlobAccess stubs with call log, content-keyed failures, mid-stream read failures, cancellation awareness)", "goroutine scheduling of the errgroup fan-out (verifsimrt)", "composite assembly (the loop of new_blob_access.go without the configuration map, whose iteration order is an uncontrolled random source; listing orders are tape-chosen instead)"},
 		},
 		Rule:           "a run = 1-8 shards (keys from an awkward pool, weights incl. 1 and 2^32-1) x 2-8 hash families (leading 8 bytes: 0, 2^64-1, aimed at log-table boundaries/extreme scores of a shard, exact score ties, random; members differ in hash tail, digest function, size, instance name) pre-seeded on arbitrary shards x 0-4 membership changes (permute/remove/add/rebuild; the composite is rebuilt over the same stubs) x per map a full FindMissing sweep, direct selector queries and 1-8 Put/Get/GetFromComposite/FindMissing operations on 1-2 concurrent clients, with per-shard failures in the faults profile; non-trivial = at least one hash compared across a permutation, removal or addition, or a fault fired; distinct = distinct event-log hash",
